@@ -26,14 +26,6 @@ def qobj? (toks : List String) : Option (QObj Facet) :=
   | "notall" :: ks => do let ks ← facets? ks; pure (.notall ks)
   | _ => none
 
-def applyDirect (s : Keyword.State Facet) : QObj Facet → List Int
-  | .eq k => Keyword.applyEq s k
-  | .noteq k => Keyword.applyNotEq s k
-  | .any ks => Keyword.applyAny s ks
-  | .notany ks => Keyword.applyNotAny s ks
-  | .all ks => Keyword.applyAll s ks
-  | .notall ks => Keyword.applyNotAll s ks
-
 def showCounts (c : List (Facet × Nat)) : String :=
   let fs := sortFacets (c.map (·.1)).eraseDups
   "{" ++ " ".intercalate (fs.map (fun f => showFacet f ++ "=" ++ toString ((AMap.get c f).getD 0))) ++ "}"
@@ -93,7 +85,7 @@ def step0 (st : St) (toks : List String) : St × String :=
     | none => (st, "bad-op")
   | "q" :: rest =>
     match qobj? rest with
-    | some q => (st, both (applyDirect st.s.ks q) (Keyword.Spec.sem (Spec.kwTable st.s.facets st.t) q))
+    | some q => (st, both (QObj.applyIndex st.s.ks q) (Keyword.Spec.sem (Spec.kwTable st.s.facets st.t) q))
     | none => (st, "bad-op")
   | "qx" :: rest =>
     match qobj? rest with
